@@ -430,8 +430,8 @@ class Cid(object):
             if field_length.lower_limit > sys.maxsize:
                 # Such a field could never be read: io read() would fail with an OverflowError.
                 raise errors.InterfaceError(
-                    "length of field %s for fixed data format must be at most %d but is: %d"
-                    % (_compat.text_repr(field_name), sys.maxsize, field_format.length.lower_limit),
+                    "length of field %s for fixed data format must be at most %d but is: %s"
+                    % (_compat.text_repr(field_name), sys.maxsize, field_format.length),
                     self._location,
                 )
         elif field_length.lower_limit is not None:
